@@ -12,8 +12,8 @@ CLASSES = ['d-red', 'd-fill-blue', 'd-text-bigger', 'd-thick', 'd-dash', 'd-arro
 CFG_KEYS = [('debug', [True, False]), ('add_metadata', [True, False]), ('theme', ['default', 'bold', 'fine', 'glass', 'light', 'dark']),
             ('border', [0, 5, 12]), ('scale', [0.5, 1.0, 2.5]), ('add_auto_styles', [True, False]),
             ('background', ['default', 'red', '#fff', 'a"b<c', "x'y&z"]),
-            ('font_size', [3.0, 5.5]), ('font_family', ['sans-serif', 'a"b', 'A & B', "it's <x>"]), ('use_local_styles', [True, False]),
-            ('seed', [0, 7]), ('svg_style', ['background: #eee', 'a:"b"', 'x<y&z'])]
+            ('font_size', [3.0, 5.5]), ('font_family', ['sans-serif', 'a"b', 'A & B', "it's <x>", 'var(--doc-font), serif']), ('use_local_styles', [True, False]),
+            ('seed', [0, 7]), ('svg_style', ['background: #eee', 'a:"b"', 'x<y&z', '--accent: #f80', 'x: -->'])]
 
 
 def rand_cfg(rng, p=0.3, local_styles=True):
@@ -101,6 +101,10 @@ def gen_doc(rng, root_attrs=None, text_heavy=False):
                 parts.append('<%s class="%s $hl%d %s">%s</%s>' % (nm, cl[0], i, cl[1], inner, nm))
             else:
                 parts.append('<g%s>%s</g>' % (rng.choice(['', ' class="grp"', ' transform="translate(5 6)"', ' id="g%d"' % i]), inner))
+        elif r < 9 and rng.chance(0.5):
+            # escaped character data next to child elements (mixed content), inside text and inside a group
+            parts.append(rng.choice(['<text xy="%d 5">Tom &amp; <tspan>Jerry</tspan> &lt;3</text>' % rng.range(0, 30),
+                                     '<g>lead &amp; in<rect wh="2"/>tail &lt; end</g>', '<a>x &gt; y<circle r="1"/>&amp;amp;</a>']))
         elif r < 9:
             parts.append('<!--' + rich_text(rng).replace('--', '- -').rstrip('-') + '-->')
         elif r < 10:
